@@ -215,6 +215,10 @@ func (bd *DbBase) FromSessionKey(key []byte) ([]byte, error) {
 	if len(bd.baseDb.sid) == 0 {
 		return key, nil
 	}
+	if bd.baseDb.pfx <= datatype_sessioned_threshold {
+		// entries of this data type are stored without the session id (see ToSessionKey)
+		return key, nil
+	}
 	if !bytes.HasPrefix(key, bd.baseDb.sid) {
 		return nil, fmt.Errorf("session id prefix %s does not match key %x", string(bd.baseDb.sid), key)
 	}
